@@ -7,7 +7,9 @@ call, and an exception contract judges every exception that escapes: only
 LenaKeyError / LenaTypeError / LenaValueError may, and LenaKeyError only where a
 missing key is configured to raise.
 """
+import copy
 import itertools
+import pickle
 
 from rv.props import _c08_ref as R
 
@@ -101,6 +103,9 @@ def cases(tier, seed):
         yield {"k": "addr", "ctx": R.rand_ctx(rng, 3 if i % 4 else 2)}
     yield {"k": "addr", "ctx": {}}
     yield {"k": "addr_dotted"}
+    for i in range(6 if tier == "quick" else 60):
+        rng = gen.rng_for(seed, "C08", "missing", i)
+        yield {"k": "addr_missing", "ctx": R.rand_ctx(rng, 3)}
     yield {"k": "roundtrip"}
     for i in range(NFMT[tier]):
         rng = gen.rng_for(seed, "C08", "fmt", i)
@@ -228,7 +233,8 @@ def run_case(r, obs):
     import lena.meta
     ctl = Ctl(obs)
     try:
-        {"addr": run_addr, "addr_dotted": run_addr_dotted, "roundtrip": run_roundtrip,
+        {"addr": run_addr, "addr_dotted": run_addr_dotted, "addr_missing": run_addr_missing,
+         "roundtrip": run_roundtrip,
          "fmt": run_fmt, "upd": run_upd,
          "tostr": run_tostr, "malformed": run_malformed}[r["k"]](r, obs, ctl)
     finally:
@@ -386,6 +392,112 @@ def run_addr_dotted(r, obs, ctl):
                              "%r left %r, expected %r" % (key, form, ctx0, c, expd))
 
 
+def _to_dd(v):
+    """The same tree made of collections.defaultdict (a dict subclass with __missing__: a
+    look-up of an absent key by d[key] would create it)."""
+    import collections
+    if isinstance(v, dict):
+        d = collections.defaultdict(dict)
+        for k, x in v.items():
+            d[k] = _to_dd(x)
+        return d
+    if isinstance(v, list):
+        return [_to_dd(x) for x in v]
+    return v
+
+
+def _plain(v):
+    if isinstance(v, dict):
+        return {k: _plain(x) for k, x in v.items()}
+    if isinstance(v, list):
+        return [_plain(x) for x in v]
+    return v
+
+
+def run_addr_missing(r, obs, ctl):
+    """Contexts that are dict subclasses with __missing__ (defaultdict, Counter, auto-vivifying
+    trees): an absent item is absent, and asking for it does not create it."""
+    import lena.context as LC
+    plain = R.cp(r["ctx"])
+    DEF = object()
+    obs.nontrivial = True
+    for p in R.all_paths(3) + R.extra_paths(plain):
+        if not p:
+            continue
+        exp = R.get(plain, p)
+        s = ".".join(p)
+        for form, keys in (("str", s), ("list", list(p)), ("dict", nested(p, {}))):
+            for with_default in (False, True):
+                ctx = _to_dd(plain)
+                if with_default:
+                    out = ctl.call("get_recursively", "defaultdict",
+                                   lambda: LC.get_recursively(ctx, keys, DEF),
+                                   lambda: "get_recursively(defaultdict %r, %r, default)"
+                                   % (plain, keys))
+                else:
+                    out = ctl.call("get_recursively", "defaultdict",
+                                   lambda: LC.get_recursively(ctx, keys),
+                                   lambda: "get_recursively(defaultdict %r, %r)" % (plain, keys))
+                obs.count("lookups")
+                ctl.evals += 1
+                if out[0] == "foreign":
+                    continue
+                if exp is R.ABSENT:
+                    good = (out[0] == "ok" and out[1] is DEF) if with_default \
+                        else out[0] == "LenaKeyError"
+                else:
+                    good = out[0] == "ok" and _plain(out[1]) == exp
+                if not good:
+                    ctl.fail("get_recursively-wrong-result:%s:dict-subclass-with-__missing__"
+                             % form,
+                             "get_recursively(<defaultdict tree of %r>, %r%s) -> %s %r, the item "
+                             "is %s" % (plain, keys, ", default" if with_default else "",
+                                        out[0], out[1],
+                                        "absent" if exp is R.ABSENT else repr(exp)))
+                if _plain(ctx) != plain:
+                    ctl.fail("look-up-creates-items:dict-subclass-with-__missing__",
+                             "get_recursively(<defaultdict tree of %r>, %r) changed the context "
+                             "to %r" % (plain, keys, _plain(ctx)))
+        ctx = _to_dd(plain)
+        out = ctl.call("contains", "defaultdict", lambda: LC.contains(ctx, s),
+                       lambda: "contains(defaultdict %r, %r)" % (plain, s))
+        ctl.evals += 1
+        if out[0] != "foreign":
+            if not (out[0] == "ok" and out[1] is R.contains(plain, p)) or _plain(ctx) != plain:
+                ctl.fail("contains-disagrees-with-lookup:dict-subclass-with-__missing__",
+                         "contains(<defaultdict tree of %r>, %r) -> %r (context afterwards %r), "
+                         "lookup says %r" % (plain, s, out, _plain(ctx), R.contains(plain, p)))
+        ctx = _to_dd(plain)
+        val = (["D"], ctx)
+        out = ctl.call("DeleteContext", "defaultdict", lambda: LC.DeleteContext(s)(val),
+                       lambda: "DeleteContext(%r) on defaultdict %r" % (s, plain))
+        ctl.evals += 1
+        if out[0] != "foreign":
+            expd = R.delete(R.cp(plain), p)
+            if out[0] != "ok" or _plain(ctx) != expd:
+                ctl.fail("DeleteContext-wrong-context:dict-subclass-with-__missing__",
+                         "DeleteContext(%r) on <defaultdict tree of %r> -> %s, context %r, "
+                         "expected %r" % (s, plain, out[0], _plain(ctx), expd))
+        # a formatter over an absent field
+        ctx = _to_dd(plain)
+        ts = "x{{%s}}y" % s
+        out = ctl.call("format_context", "defaultdict", lambda: LC.format_context(ts)(ctx),
+                       lambda: "format_context(%r)(defaultdict %r)" % (ts, plain))
+        ctl.evals += 1
+        if out[0] != "foreign":
+            if exp is R.ABSENT:
+                good = out[0] == "LenaKeyError"
+            else:
+                item = ctx
+                for kk in p:
+                    item = dict.__getitem__(item, kk)      # never through __missing__
+                good = out[0] == "ok" and out[1] == "x{}y".format(item)
+            if not good or _plain(ctx) != plain:
+                ctl.fail("format_context-wrong:dict-subclass-with-__missing__",
+                         "format_context(%r)(<defaultdict tree of %r>) -> %r, context afterwards "
+                         "%r" % (ts, plain, out, _plain(ctx)))
+
+
 def run_roundtrip(r, obs, ctl):
     import lena.context as LC
     obs.nontrivial = True
@@ -489,6 +601,55 @@ def run_fmt(r, obs, ctl):
                              "(some without the fields), f(%r) -> %r, expected %s"
                              % (ts, c2, out2, "LenaKeyError" if exp2 is R.ABSENT else repr(exp2)))
                     break
+        # ... also when consecutive contexts hold items that compare equal but are rendered
+        # differently (1, True, 1.0), or one context whose item was changed in place
+        if out[0] != "foreign" and flds and exp is not R.ABSENT:
+            fpath = flds[0][1]
+            v0 = R.get(ctx, fpath)
+            twins = []
+            if isinstance(v0, bool):
+                twins = [int(v0), float(v0)]
+            elif isinstance(v0, int):
+                twins = [float(v0)] + ([bool(v0)] if v0 in (0, 1) else [])
+            elif isinstance(v0, float) and v0 == int(v0):
+                twins = [int(v0)]
+            for tw in twins:
+                c2 = R.cp(ctx)
+                R.write(c2, fpath, tw, False)
+                seq_ctx = [ctx, c2, ctx, c2]
+                for cc in seq_ctx:
+                    expc = R.render_format(pieces, cc)
+                    o3 = ctl.call("format_context", "formatter-reused", lambda: mk[1](R.cp(cc)),
+                                  lambda: "format_context(%r) reused on %r" % (ts, cc))
+                    obs.count("renderings_by_a_reused_formatter")
+                    ctl.evals += 1
+                    if o3[0] == "foreign":
+                        break
+                    if not (o3[0] == "ok" and o3[1] == expc):
+                        ctl.fail("format_context-reused-formatter-wrong:equal-items-rendered-"
+                                 "differently",
+                                 "f = format_context(%r) applied in turn to contexts whose item "
+                                 "%r is %r and %r: f(%r) -> %r, expected %r"
+                                 % (ts, ".".join(fpath), v0, tw, cc, o3, expc))
+                        break
+            if isinstance(v0, (list, dict)):
+                c3 = R.cp(ctx)
+                first = ctl.call("format_context", "formatter-reused", lambda: mk[1](c3),
+                                 lambda: "format_context(%r)(%r)" % (ts, c3))
+                item = R.get(c3, fpath)
+                if isinstance(item, list):
+                    item.append("more")
+                else:
+                    item["more"] = 1
+                expc = R.render_format(pieces, c3)
+                o3 = ctl.call("format_context", "formatter-reused", lambda: mk[1](c3),
+                              lambda: "format_context(%r)(%r)" % (ts, c3))
+                ctl.evals += 1
+                if first[0] == "ok" and o3[0] != "foreign" and \
+                        not (o3[0] == "ok" and o3[1] == expc):
+                    ctl.fail("format_context-reused-formatter-wrong:item-changed-in-place",
+                             "f = format_context(%r); f(c); the item %r of c changed in place; "
+                             "f(c) -> %r, expected %r" % (ts, ".".join(fpath), o3, expc))
         # format_update_with / SetContext with the same template as value
         key = r["keys"][ti % len(r["keys"])]
         ks = ".".join(key)
@@ -553,6 +714,7 @@ def run_fmt(r, obs, ctl):
 
 # ------------------------------------------------------------------ UpdateContext
 UNSET = object()
+_combo = [0]
 
 
 def run_upd(r, obs, ctl):
@@ -614,6 +776,29 @@ def run_upd(r, obs, ctl):
                      "%s raised %r" % (desc, mk[1]))
             continue
         el = mk[1]
+        # every third configuration is used through a deep copy, every third through a pickle
+        # round trip (elements are copied by SplitIntoBins / MapBins / Vectorize / Split and
+        # sent to worker processes): a copy is the same element
+        _combo[0] += 1
+        if _combo[0] % 3:
+            made = None
+            if _combo[0] % 3 == 2:
+                try:
+                    made = pickle.loads(pickle.dumps(el))
+                    desc = "unpickled " + desc
+                    obs.count("update_elements_unpickled")
+                except Exception:  # pylint: disable=broad-except
+                    made = None
+            if made is None:
+                try:
+                    made = copy.deepcopy(el)
+                    desc = "deep copy of " + desc
+                    obs.count("update_elements_deep_copied")
+                except Exception:  # pylint: disable=broad-except
+                    # a compiled jinja2 template inside: neither picklable nor copyable
+                    obs.count("update_elements_not_copyable")
+            if made is not None:
+                el = made
         prev_ids = set()
         for ctx in ctxs:
             data = ["D"]
